@@ -78,6 +78,15 @@ def read_cmd_line_file(build_dir: str, options: SharedCMDOptions) -> None:
         # literal_eval to get it into the list of strings.
         options.native_file = ast.literal_eval(properties.get('native_file', '[]'))
 
+def _write_config(config: CmdLineFileParser, filename: str) -> None:
+    # Write to a temporary file and rename it: if meson is killed while
+    # writing, the old file must stay intact, a truncated one makes the next
+    # "meson setup --reconfigure" fail.
+    tempfilename = filename + '~'
+    with open(tempfilename, 'w', encoding='utf-8') as f:
+        config.write(f)
+    os.replace(tempfilename, filename)
+
 def write_cmd_line_file(build_dir: str, options: SharedCMDOptions) -> None:
     filename = get_cmd_line_file(build_dir)
     config = CmdLineFileParser()
@@ -90,8 +99,7 @@ def write_cmd_line_file(build_dir: str, options: SharedCMDOptions) -> None:
 
     config['options'] = {str(k): str(v) for k, v in options.cmd_line_options.items()}
     config['properties'] = {k: repr(v) for k, v in properties.items()}
-    with open(filename, 'w', encoding='utf-8') as f:
-        config.write(f)
+    _write_config(config, filename)
 
 def update_cmd_line_file(build_dir: str, options: SharedCMDOptions) -> None:
     filename = get_cmd_line_file(build_dir)
@@ -109,8 +117,7 @@ def update_cmd_line_file(build_dir: str, options: SharedCMDOptions) -> None:
         elif keystr in config['options']:
             del config['options'][keystr]
 
-    with open(filename, 'w', encoding='utf-8') as f:
-        config.write(f)
+    _write_config(config, filename)
 
 def format_cmd_line_options(options: SharedCMDOptions) -> str:
     cmdline = ['-D{}={}'.format(str(k), v) for k, v in options.cmd_line_options.items()]
